@@ -176,16 +176,15 @@ def C05_walk_small(n_nodes: int, p0: int, p1: int, p2: int, p3: int, p4: int, p5
   return True
 
 
-def C05_fast(n_nodes: int, rf: int, diverse: bool, h0: int, h1: int, h2: int, h3: int, hk: int) -> bool:
+def C05_fast(n_nodes: int, h0: int, h1: int, h2: int, h3: int, hk: int) -> bool:
   """
   pre: 1 <= n_nodes <= 4
-  pre: 1 <= rf <= 4
-  pre: 0 <= h0 and 0 <= h1 and 0 <= h2 and 0 <= h3
+  pre: 0 <= h0 and 0 <= h1 and 0 <= h2 and 0 <= h3 and 0 <= hk
   post: __return__
   """
-  dests = [('h1', 2004, 'a'), ('h1', 2104, 'b'), ('h2', 2004, 'a'), ('h3', 2004, 'a')][:n_nodes]
-  hs = {('h1', 'a'): h0, ('h1', 'b'): h1, ('h2', 'a'): h2, ('h3', 'a'): h3}
-  r = routers.FastHashingRouter(_Settings(rf, diverse, 'carbon_ch'))
+  dests = [('h1', 2004, 'a'), ('h1', 2104, 'b'), ('h2', 2004, 'a'), ('h2', 2104, 'b')][:n_nodes]
+  hs = {('h1', 'a'): h0, ('h1', 'b'): h1, ('h2', 'a'): h2, ('h2', 'b'): h3}
+  r = routers.FastHashingRouter(_Settings(1, False, 'carbon_ch'))
   table = [(str(k), v) for k, v in hs.items()]
 
   def fake_hash(key):
@@ -196,10 +195,22 @@ def C05_fast(n_nodes: int, rf: int, diverse: bool, h0: int, h1: int, h2: int, h3
   r.ring._hash = fake_hash
   for d in dests:
     r.addDestination(d)
-  out = list(r.getDestinations('some.metric'))
-  again = list(r.getDestinations('some.metric'))
+  ok = True
+  first = None
+  for rf in (4, 1, 2, 3):
+    for diverse in (False, True):
+      r.replication_factor = rf
+      r.diverse_replicas = diverse
+      out = list(r.getDestinations('some.metric'))
+      if first is None:
+        first = out
+      if not _well_formed(out, dests, rf, diverse):
+        ok = False
+  r.replication_factor, r.diverse_replicas = 4, False
+  if list(r.getDestinations('some.metric')) != first:
+    ok = False
   cover('routed')
-  return out == again and _well_formed(out, dests, rf, diverse)
+  return ok
 
 
 def _shards(cfgs, gaps_per_shard):
@@ -232,8 +243,7 @@ HARNESSES = [
     covers=['looked_up'],
     encodes=['carbon.hashing:ConsistentHashRing.add_node', 'carbon.hashing:ConsistentHashRing.get_nodes'],
     assumptions=['replica_count lowered to 2 (>= 2 keeps the `index != last_index` guard from hiding a node, as with the production value 100)']),
-  H('C05_fast', quick=dict(timeout=240, shards=[('n%d' % n, 'n_nodes == %d' % n) for n in (1, 2, 3)]),
-    thorough=dict(timeout=900, shards=[('n%d' % n, 'n_nodes == %d' % n) for n in (1, 2, 3, 4)]),
+  H('C05_fast', quick=dict(timeout=300, shards=[('n%d' % n, 'n_nodes == %d' % n) for n in (1, 2, 3, 4)]),
     covers=['routed'],
     encodes=['carbon.routers:FastHashRing.get_nodes', 'carbon.routers:FastHashRing._update_nodes',
              'carbon.routers:FastHashingRouter (getDestinations inherited)'],
